@@ -164,3 +164,239 @@ def closure_literals(cdef):
         for bb, t in g.calls():
             out += [c for c in arg_consts(g, t) if isinstance(c, str)]
     return out
+
+
+LINE_TY = r"^std::result::Result<(ascii::AsciiString|std::string::String|std::vec::Vec<u8>), std::io::Error>$"
+LINE = ("sym", "line")
+VER = ("sym", "version-of-the-request")
+DEAD = ("diverge", "resume", "terminate", "unreachable")
+
+
+def returns_type(f, x, needle):
+    """does the call term x produce a value whose type mentions `needle`? (declared return type of the callee when it is a
+    crate function, else the type of the destination of the call site)"""
+    g = f.facts.fns.get(x[1])
+    if g is not None and needle in g.locals[0]["ty"]:
+        return True
+    bb = x[3] if len(x) > 3 else None
+    if isinstance(bb, int) and 0 <= bb < f.n:
+        t = f.blocks[bb].get("inl_call") or f.term(bb)
+        if t.get("t") == "call" or "dest" in t:
+            return needle in f.local_ty(t["dest"]["l"])
+    return False
+
+
+def statuses_of(p):
+    out = []
+    for e in p.calls():
+        for a in e[3]:
+            for x in absint.walk_terms(absint.deep(p.state, a)):
+                if x and x[0] == "agg" and x[1] == STATUS:
+                    c = absint.const_of(list(x[3].values())[0]) if x[3] else None
+                    out.append(c)
+    return out
+
+
+def prints_of(p):
+    return [e for e in p.calls() if re.search(r"response::Response::<R>::raw_print$", e[2])]
+
+
+def version_arg(p, e):
+    """the HTTP version a raw_print answers with (3rd argument)"""
+    return absint.deep(p.state, e[3][2]) if len(e[3]) > 2 else None
+
+
+def io_error(kind):
+    return ("call", "std::io::Error::new", [("agg", "std::io::ErrorKind", kind, {}), ("const", "x", '"x"', None)], -1, "")
+
+
+
+
+def trace_and_judge(ctx, r1, r2, only=None):
+    """Trace every cause of a read error from the head reader into next() and judge what next() does with it.
+    r1: rule id for the verdicts, r2: rule id for the propagation obligations; only: predicate on cause labels."""
+    facts = ctx.facts
+    PM = pmodel(facts)
+    f, rd = PM.nxt, PM.rd
+    ctx.touch(f); ctx.touch(rd)
+    err = facts.adt(PM.err_adt)
+    where = "%s:%d" % (f.file, f.line)
+    emit = (lambda *a, **k: ctx.ob(*a, **k))
+    def verdict(x, label, want_status, want_version):
+        """what next() does with read() == Err(x)"""
+        ps = [p for p in PM.after_read(Err_(x), on_call=absint.io_model) if p.end[0] not in DEAD]
+        ctx.paths += len(ps)
+        bad = []
+        for p in ps:
+            if not (p.end[0] == "return" and p.ret() == ("none",)):
+                bad.append("does not end the connection: %s" % Q._ret_str(p))
+                continue
+            pr = prints_of(p)
+            st = [s for s in statuses_of(p)]
+            if want_status is None:
+                if pr:
+                    bad.append("answers with %s" % st)
+                continue
+            if len(pr) != 1 or set(st) != {want_status}:
+                bad.append("prints %d responses with status %s" % (len(pr), sorted(set(map(str, st)))))
+                continue
+            va = version_arg(p, pr[0])
+            if want_version == "1.1":
+                okv = version_const(va) == (1, 1)
+            else:
+                # the version the head reader had parsed (not a constant)
+                okv = absint.contains(va, VER) or (version_const(va) is None and not any(x and x[0] == "const" for x in absint.walk_terms(va)))
+            if not okv:
+                bad.append("answers with version %s" % symex.sym_str(va))
+        ok = bool(ps) and not bad
+        what = ("answered with nothing" if want_status is None else "answered with %s (%s)" % (want_status, "as HTTP/1.1" if want_version == "1.1" else "with the request's own version"))
+        ctx.ob(r1, "%s|%s" % (PM.cc_next.id, label), "%s: the connection ends, nothing is delivered, no further request is read, and the client is %s" % (label, what), ok, where,
+               None if ok else str(bad[:3]))
+
+    # ---- C10.1 (a) what read() returns for each cause ------------------------------------------------------------
+    causes = []          # (label, error term, status, version)
+    # header parser failure
+    hp = [bb for bb, t in rd.calls() if rd.local_ty(t["dest"]["l"]).startswith("std::result::Result<common::Header,") and not t["dest"]["p"]]
+    ctx.ob(r2, "%s|parses-headers" % PM.read_def, "the head reader hands every header line to the header parser", bool(hp), "%s:%d" % (rd.file, rd.line))
+    for k, bb in enumerate(hp):
+        t = rd.term(bb)
+        st = symex.Sym(rd)
+        st.write_key((rd.argc + 1000000,), ("unit",))
+        st.write_key(pl_key(t["dest"]), Err_(("unit",)))
+        # the version parsed from the request line is whatever the function holds at this point: mark every HTTPVersion local
+        for i, l in enumerate(rd.locals):
+            if l["ty"] == HV:
+                st.write_key((i,), VER)
+        ps = [p for p in absint.explore(rd, t["target"], st) if p.end[0] not in DEAD]
+        bad = [Q._ret_str(p) for p in ps if not (p.end[0] == "return" and p.ret()[0] == "agg" and p.ret()[2] == "Err")]
+        ctx.ob(r2, "%s|header-error-propagates|%d" % (PM.read_def, k), "a header line the header parser rejects makes the head reader return an error (no request is built, the line is not skipped)",
+               bool(ps) and not bad, rd.loc(bb), None if not bad else str(bad[:3]))
+        for p in ps:
+            if p.end[0] == "return" and p.ret()[0] == "agg" and p.ret()[2] == "Err":
+                causes.append(("malformed header line", p.ret()[3]["0"], 400, "own"))
+    # new_request failures
+    nrc = [bb for bb, t in rd.calls() if call_matches(t, r"^request::new_request$")]
+    ctx.ob(r2, "%s|builds-request" % PM.read_def, "the head reader builds the request with new_request", len(nrc) == 1, "%s:%d" % (rd.file, rd.line))
+    for bb in nrc:
+        t = rd.term(bb)
+        ty = rd.local_ty(t["dest"]["l"])
+        mm = re.match(r"^std::result::Result<request::Request, ([\w:]+)>$", ty)
+        ctx.require(mm and mm.group(1) in facts.adts, "C10.1: error type of new_request")
+        for v in facts.adt(mm.group(1))["variants"]:
+            tys = [x["ty"] for x in v["fields"]]
+            kinds = ["TimedOut", "ConnectionAborted"] if tys == ["std::io::Error"] else [None]
+            for kind in kinds:
+                st = symex.Sym(rd)
+                payload = {v["fields"][0]["name"]: io_error(kind)} if kind else {x["name"]: ("sym", x["name"]) for x in v["fields"]}
+                st.write_key(pl_key(t["dest"]), Err_(("agg", mm.group(1), v["name"], payload)))
+                for i, l in enumerate(rd.locals):
+                    if l["ty"] == HV:
+                        st.write_key((i,), VER)
+                ps = [p for p in absint.explore(rd, t["target"], st) if p.end[0] not in DEAD]
+                bad = [Q._ret_str(p) for p in ps if not (p.end[0] == "return" and p.ret()[0] == "agg" and p.ret()[2] == "Err")]
+                ctx.ob(r2, "%s|new_request-error-propagates|%s" % (PM.read_def, v["name"]), "an error of new_request makes the head reader return an error", bool(ps) and not bad, rd.loc(bb),
+                       None if not bad else str(bad[:3]))
+                for p in ps:
+                    if p.end[0] == "return" and p.ret()[0] == "agg" and p.ret()[2] == "Err":
+                        x = p.ret()[3]["0"]
+                        if kind == "TimedOut":
+                            causes.append(("read timeout while buffering the body", x, 408, "1.1"))
+                        elif kind:
+                            causes.append(("I/O error while buffering the body", x, None, None))
+                        elif re.search(r"expect", v["name"], re.I):
+                            causes.append(("unsupported Expect value", x, 417, "own"))
+                        else:
+                            causes.append(("%s reported by new_request" % v["name"], x, 400, "own"))
+    # the line reader: end of stream, non-ASCII, timeout
+    lines = [b for b in range(rd.n) if rd.blocks[b].get("inl_call") and re.match(LINE_TY, rd.local_ty(rd.blocks[b]["inl_call"]["dest"]["l"]))]
+    ctx.ob(r2, "%s|reads-lines" % PM.read_def, "the head reader obtains the head line by line from a line reader of its own", bool(lines), "%s:%d" % (rd.file, rd.line))
+    first = [b for b in lines if all(rd.dominates(b, x, unwind=False) for x in lines)]
+    for k, b in enumerate(lines):
+        ic = rd.blocks[b]["inl_call"]
+        for label, kind, status, ver in (("end of stream in the head", "ConnectionAborted", None, None), ("non-ASCII bytes in the head", "InvalidInput", None, None), ("read timeout in the head", "TimedOut", 408, "1.1")):
+            st = symex.Sym(rd)
+            st.write_key(pl_key(ic["dest"]), Err_(io_error(kind)))
+            for i, l in enumerate(rd.locals):
+                if l["ty"] == HV:
+                    st.write_key((i,), VER)
+            ps = [p for p in absint.explore(rd, ic["target"], st) if p.end[0] not in DEAD]
+            bad = [Q._ret_str(p) for p in ps if not (p.end[0] == "return" and p.ret()[0] == "agg" and p.ret()[2] == "Err")]
+            ctx.ob(r2, "%s|line-error-propagates|%d|%s" % (PM.read_def, k, kind), "a failure of the line reader makes the head reader return an error", bool(ps) and not bad, rd.loc(b), None if not bad else str(bad[:3]))
+            if k == 0 or b in first:
+                for p in ps:
+                    if p.end[0] == "return" and p.ret()[0] == "agg" and p.ret()[2] == "Err":
+                        causes.append((label, p.ret()[3]["0"], status, ver))
+    # request line
+    if len(first) == 1:
+        b = first[0]
+        ic = rd.blocks[b]["inl_call"]
+        st = symex.Sym(rd)
+        st.write_key(pl_key(ic["dest"]), Ok_(LINE))
+        others = set(lines) - {b}
+        ps = [p for p in absint.Explorer(rd, stop_blocks=others, max_paths=6000, max_visits=1).run(ic["target"], st) if p.end[0] not in DEAD]
+        ctx.paths += len(ps)
+        good = [p for p in ps if p.end[0] == "stop"]
+        bad_fields, bad_version = [], []
+        for p in good:
+            nexts = []
+            vers = []
+            for bb, c in p.conds:
+                if not c:
+                    continue
+                if c[0] == "variant" and c[2] in ("Some", "None"):
+                    calls = absint.calls_in(c[3])
+                    if calls and re.search(r"(Split\w*<.*> as std::iter::Iterator>::next|SplitWhitespace<.*> as std::iter::Iterator>::next|::split_once|::splitn)", calls[0][1] + " " + (calls[0][4] if len(calls[0]) > 4 else "")):
+                        if c[3][0] == "call" and re.search(r"Iterator>::next$", c[3][1]):
+                            nexts.append(c[2])
+                    if c[3][0] == "call" and returns_type(rd, c[3], HV):
+                        vers.append(c[2] in ("Some", "Ok"))
+                if c[0] == "variant" and c[2] in ("Ok", "Err"):
+                    calls = absint.calls_in(c[3])
+                    if c[3][0] == "call" and returns_type(rd, c[3], HV):
+                        vers.append(c[2] == "Ok")
+                if c[0] == "scalar" and isinstance(c[2], bool) and c[1][0] == "call" and re.search(r"PartialEq.*for str>::eq$|<str as std::cmp::PartialEq>::eq$|<impl std::cmp::PartialEq for str>::eq$", c[1][1]):
+                    lits = [const_str(a) for a in c[1][2]]
+                    if any(isinstance(l, str) and l.startswith("HTTP/") for l in lits):
+                        vers.append(c[2])
+            if len(nexts) < 3 or nexts[:3] != ["Some"] * 3:
+                bad_fields.append(nexts)
+            if not any(vers):
+                bad_version.append(vers)
+        ctx.ob(r2, "%s|request-line-needs-three-fields" % PM.read_def, "a request line is only accepted when its first three space-separated fields are present", bool(good) and not bad_fields,
+               rd.loc(b), None if not bad_fields else "accepted with field presence %s" % bad_fields[:3])
+        ctx.ob(r2, "%s|request-line-needs-known-version" % PM.read_def, "a request line is only accepted when its version token was recognised", bool(good) and not bad_version,
+               rd.loc(b), None if not bad_version else "accepted although every version test failed: %s" % bad_version[:3])
+        errs = {}
+        for p in ps:
+            if p.end[0] == "return" and p.ret()[0] == "agg" and p.ret()[2] == "Err":
+                errs[repr(p.ret()[3]["0"])] = p.ret()[3]["0"]
+        odd = [Q._ret_str(p) for p in ps if p.end[0] == "return" and not (p.ret()[0] == "agg" and p.ret()[2] == "Err")]
+        ctx.ob(r2, "%s|request-line-error-is-error" % PM.read_def, "a rejected request line makes the head reader return an error", bool(errs) and not odd, rd.loc(b), None if not odd else str(odd[:2]))
+        for x in errs.values():
+            causes.append(("malformed request line", x, 400, "1.1"))
+    else:
+        ctx.ob(r2, "%s|request-line-first" % PM.read_def, "the request line is the first line read", False, "%s:%d" % (rd.file, rd.line))
+
+    # ---- C10.1 (b) what next() does with each of those values -------------------------------------------------------
+    seen = set()
+    for label, x, status, ver in causes:
+        if only and not only(label):
+            continue
+        k = (label, repr(x))
+        if k in seen:
+            continue
+        seen.add(k)
+        verdict(x, label, status, ver)
+    if not only:
+        ctx.floor("%s distinct error causes traced from the head reader into next()" % r1, len({l for l, _ in seen}), 6)
+    if only:
+        return causes
+    # every variant of the error type is handled in a closing way (also ones no cause above produces)
+    for v in err["variants"]:
+        tys = [x["ty"] for x in v["fields"]]
+        payload = {x["name"]: (io_error("ConnectionReset") if x["ty"] == "std::io::Error" else (VER if x["ty"] == HV else ("sym", x["name"]))) for x in v["fields"]}
+        ps = [p for p in PM.after_read(Err_(("agg", PM.err_adt, v["name"], payload)), on_call=absint.io_model) if p.end[0] not in DEAD]
+        ok = bool(ps) and all(p.end[0] == "return" and p.ret() == ("none",) for p in ps)
+        ctx.ob(r1, "%s|%s|closes" % (PM.cc_next.id, v["name"]), "every kind of read error ends the connection: nothing is delivered and no further request is read", ok, where)
+
+    return causes
